@@ -550,6 +550,47 @@ int main(int argc, char** argv) {
             {"transitions"});
   }
 
+  // an operand whose TOLERANCE was raised above the size of the other operand's features.  Raising the tolerance
+  // decimates the operand itself (Simplify) - a rectangle with sides >= 4 survives a tolerance of 1.6 unchanged, which
+  // is checked - but it is not a merge distance for later Booleans: unit features of the other operand must survive.
+  {
+    const int OFF[4] = {0, 2, 5, 9};
+    std::vector<int> radix = {nr, nr, 4, 4, 2};
+    R.phase("rect-tolerance", product(radix), 32,
+            [&](uint64_t idx, Ctx& c) {
+              auto d = digits(idx, radix);
+              const LRect& A0 = rects[d[0]];
+              const LRect A{4 * A0.x0, 4 * A0.y0, 4 * A0.x1, 4 * A0.y1};
+              const LRect& B0 = rects[d[1]];
+              const LRect B{B0.x0 + OFF[d[2]], B0.y0 + OFF[d[3]], B0.x1 + OFF[d[2]], B0.y1 + OFF[d[3]]};
+              const bool loosFirst = d[4] == 0;
+              const std::string an = A.str() + ".SetTolerance(1.6)", bn = B.str();
+              c.describe(an + " ? " + bn);
+              CrossSection a = rectVariant(A, 0).SetTolerance(1.6), b = rectVariant(B, 1);
+              auto winL = [](const LRect& r) { return PixSet::ofRect(-4, -4, 24, 24, r); };
+              const PixSet ma = winL(A), mb = winL(B);
+              std::string w0 = judgePixels(a, ma);
+              if (!w0.empty()) {
+                c.viol("rect:construct " + an, an, w0);
+                return;
+              }
+              for (OpType op : OPS) {
+                const std::string prog = loosFirst ? an + " " + opName(op) + " " + bn : bn + " " + opName(op) + " " + an;
+                c.describe(prog);
+                CrossSection r = loosFirst ? a.Boolean(b, op) : b.Boolean(a, op);
+                c.count("transitions");
+                const PixSet want = loosFirst ? ma.op(mb, setOp(op)) : mb.op(ma, setOp(op));
+                std::string why = judgePixels(r, want);
+                if (!why.empty()) c.viol("rect:" + prog, prog, why + "\n" + polysStr(r.ToPolygons()));
+                const uint64_t h = want.hash() ^ canonPolysHash(r.ToPolygons());
+                c.distinct(h);
+                if (nontriv(want, {&ma, &mb})) c.nontrivial(h);
+              }
+              if (idx % 5003 == 0) c.sample(an + " {+,-,^} " + bn);
+            },
+            {"transitions"});
+  }
+
   // BatchBoolean over all ordered triples
   {
     std::vector<int> radix = {asanSubset ? 6 : nr, nr, nr, 3};  // ASan: first operand from the 6 rectangles with x in [0,1]
